@@ -135,6 +135,23 @@ pub fn test(c: &Case) -> Verdict {
     }
 }
 
+pub fn test_c12(c: &Case) -> Verdict {
+    let mut c = c.clone();
+    for op in c.ops.iter_mut() {
+        if let Op::Bin { kind, .. } = op {
+            *kind %= 3;
+        }
+    }
+    match c.be {
+        Be::FftRef => fft_ref::run_c12(&c),
+        Be::FftAvx => fft_avx::run_c12(&c),
+        Be::NttRef => ntt_ref::run_c12(&c),
+        Be::NttAvx => ntt_avx::run_c12(&c),
+    }
+}
+
+pub const RULE_C12: &str = "CKKS layer: cases = the straight-line CKKS programs of C16 (backend, parameter set, 2 fresh encryptions + 1..13 steps among add/sub/mul/square/neg/pow2/rotate/conjugate/rescale/align and the plaintext forms, into or in place). Every library call of the program receives a 64-byte aligned scratch window of exactly the bytes its own ckks_*_tmp_bytes query returns (queried with the larger of destination and operands where the query takes one layout), inside guard regions and filled with garbage; the program runs with ample scratch and twice with exact windows (two fills). Violation = panic in exact mode only, damaged guard, or final registers (metadata and raw digits) differing between the three runs. non-trivial = at least one call with a non-zero query.";
+
 fn op_strategy() -> impl Strategy<Value = Op> {
     prop_oneof![
         2 => (any::<u8>(), 2u8..=8, 12u8..=48, 4u8..=12, any::<u8>(), any::<u64>()).prop_map(|(dst, limbs, ld, ptlb, mag_bits, seed)| Op::Enc { dst, limbs, ld, ptlb, mag_bits, seed }),
@@ -173,9 +190,19 @@ fn main() {
     if args[0] == "replay" {
         let (prop, sub, case) = read_replay(&args[1]);
         let ctx = DCtx::from_args(&prop, &[]);
+        if prop == "C12" {
+            std::process::exit(ctx.replay_case::<Case, _>(&sub, &case, test_c12));
+        }
         std::process::exit(ctx.replay_case::<Case, _>(&sub, &case, test));
     }
     let prop = args[0].clone();
+    if prop == "C12" {
+        let ctx = DCtx::from_args(&prop, &args[1..]);
+        let t = ctx.tier;
+        ctx.run_sub("ckks_exact_scratch", t.pick(12_000, 300_000), 64, strategy, test_c12);
+        let code = ctx.finish(RULE_C12, &["programs the C16 oracle rejects (or that panic with ample scratch) are skipped here: they are C16's subject"], &[("mul_into", 50), ("rotate", 50), ("exact_windows>=2", 500)]);
+        std::process::exit(code);
+    }
     if prop != "C16" {
         eprintln!("harness error: unknown property {prop}");
         std::process::exit(2);
